@@ -304,7 +304,7 @@ class CompilerArgs(T.MutableSequence[str]):
             dedup = self._can_dedup(arg)
             if dedup is Dedup.UNIQUE:
                 # Argument already exists and adding a new instance is useless
-                if arg in self._container or arg in self.pre or arg in self.post:
+                if arg in self._container or arg in self.pre or arg in self.post or arg in tmp_pre:
                     continue
             elif dedup is Dedup.OVERRIDDEN:
                 self.needs_override_check = True
